@@ -3429,6 +3429,41 @@ impl RaftNode {
             self.persist_term_and_vote(metadata.last_included_term, None)?;
         }
 
+        // If the log already holds the snapshot's last entry (same index and term), the snapshot
+        // brings nothing new: by log matching everything before that entry agrees as well. The
+        // entries that follow it must stay - they may already be acknowledged to a leader and
+        // committed through that acknowledgement - so only the bookkeeping is updated.
+        let already_held = {
+            let persistent = self.persistent.read();
+            persistent
+                .log_index_to_array_index(metadata.last_included_index)
+                .and_then(|idx| persistent.log.get(idx))
+                .is_some_and(|e| {
+                    e.index == metadata.last_included_index
+                        && e.term == metadata.last_included_term
+                })
+        };
+        if already_held {
+            {
+                let mut persistent = self.persistent.write();
+                if metadata.last_included_term > persistent.current_term {
+                    persistent.current_term = metadata.last_included_term;
+                    persistent.voted_for = None;
+                }
+            }
+            {
+                let mut volatile = self.volatile.write();
+                volatile.commit_index = volatile.commit_index.max(metadata.last_included_index);
+                volatile.last_applied = volatile.last_applied.max(metadata.last_included_index);
+            }
+            self.finalized_height
+                .fetch_max(metadata.last_included_index, Ordering::SeqCst);
+            let mut snapshot_state = self.snapshot_state.write();
+            snapshot_state.last_snapshot = Some(metadata);
+            snapshot_state.cancel_receive();
+            return Ok(());
+        }
+
         // Persist the snapshot's log BEFORE replacing the in-memory log: the WAL is the only
         // durable copy a restart recovers from. Without this a restarted node came back with
         // just the entries appended after the install (at the wrong positions) and had lost
